@@ -79,6 +79,14 @@ CLAIMED = {
         'for every bracketing/order the histories contain.',
         'Bounded as C01.',
         '5/C11'),
+    'C13': (
+        'IterQueue.tla extended with pool workers over a shared _ThreadSafeIterator input / one input per worker and the MultiplexIterator consumer (DequeueIterator num_steps, maybe_stop, pool shutdown); TLC + edge-cover replay on piter_fn / piter_multiplex / MultiplexIterator with a scheduler-managed executor; random-schedule sweep of piter/pmap/MultiplexIterator vs sequential evaluation',
+        'TLC checks no duplicate/phantom element, fault-free completeness, termination including the join of every pool worker (DJoin) for early stop at every '
+        'position, failure at every position and exhaustion; the state graphs are covered edge by edge on the real code with state comparison; a sweep over '
+        'parallelism 1..3, 1..3 inputs, buffer sizes, stop and failure positions compares the output multiset with the sequential evaluation and requires all '
+        'pool threads to be finished when iteration ends.',
+        'Bounded: <=3 workers, <=3 source items. The executor is the harness-managed one (max_workers honoured, shutdown(wait) joins).',
+        '5/C13'),
 }
 
 PENDING = {}
